@@ -46,7 +46,8 @@ Record variant := Variant {
   fix_order : bool;      (* the provider calls of one session reach the provider in the order they were issued *)
   fix_l2stop : bool;     (* the Stop of an l2gw session reads the l2gw stats segment like its Interims *)
   fix_prune : bool;      (* pruning an orphaned accounting entry closes it at the backend with a Stop *)
-  fix_ghost : bool       (* a late Accounting-Response does not re-create the checkpoint of a session released meanwhile *)
+  fix_ghost : bool       (* a late Accounting-Response - or a checkpoint write that was already on its way - leaves nothing
+                            durable for a session released meanwhile (released flag: early return + delete after the write) *)
 }.
 (* V s o l: the first three repairs plus any subset of the later three (the proofs are uniform in s, o, l) *)
 Definition V (s o l p : bool) : variant := Variant true true true s o l p true.
